@@ -76,13 +76,10 @@ impl ConstSingleDivisor {
     /// Calculate (dword << self.shift) % self
     #[inline]
     pub const fn rem_dword(&self, dword: DoubleWord) -> Word {
-        if self.0.shift() == 0 {
-            self.0.divider().div_rem_2by1(dword).1
-        } else {
-            let (n0, n1, n2) = shl_dword(dword, self.0.shift());
-            let (_, r1) = self.0.divider().div_rem_2by1(double_word(n1, n2));
-            self.0.divider().div_rem_2by1(double_word(n0, r1)).1
-        }
+        // (also for shift == 0 the high word has to be reduced first)
+        let (n0, n1, n2) = shl_dword(dword, self.0.shift());
+        let (_, r1) = self.0.divider().div_rem_2by1(double_word(n1, n2));
+        self.0.divider().div_rem_2by1(double_word(n0, r1)).1
     }
 
     /// Calculate (words << self.shift) % self
